@@ -68,7 +68,21 @@ def s_tuple_key(v):
     return (v.idx % 3, -v.idx / 2 if v.idx % 2 else -v.idx)
 
 
-SORTS = {"none": None, "idx": s_idx, "neg": s_neg, "const": s_const, "mod2": s_mod2, "mixed_numbers": s_mixed_numbers,
+class Desc:
+    """The usual descending-order wrapper: implements __lt__ and nothing else (sorted() needs no more)."""
+
+    def __init__(self, val):
+        self.val = val
+
+    def __lt__(self, other):
+        return other.val < self.val
+
+
+def s_lt_only(v):
+    return Desc(v.idx % 5)
+
+
+SORTS = {"lt_only": s_lt_only, "none": None, "idx": s_idx, "neg": s_neg, "const": s_const, "mod2": s_mod2, "mixed_numbers": s_mixed_numbers,
          "tuple_key": s_tuple_key}
 
 
@@ -189,7 +203,7 @@ def run(ctx):
                 continue
             spec = specs[n]
         else:
-            spec = graphs.rand_spec(rng, nmax=7 if quick else 12, mmax=9 if quick else 24, ecls=graphs.ECLS_DU,
+            spec = graphs.rand_spec(rng, nmax=7 if quick else 12, mmax=9 if quick else 24, ecls=graphs.ECLS_DU, vcls=graphs.VCLS_X,
                                     uni_mode="rand")
             if spec["uni"] is None:
                 spec["uni"] = [i for i in range(len(spec["verts"])) if rng.random() < 0.8]
